@@ -225,8 +225,13 @@ theorem parse_int_end (pre : List Nat) (i : Int) (hi : inRange i) :
 
 /-! ### values -/
 
+/-- no key occurs twice (a `std::map` has none; `QuickFlatMap::operator[]` would overwrite) -/
+def distinctKeys : List (List Nat) → Bool
+  | [] => true
+  | k :: rest => rest.all (fun k' => k' != k) && distinctKeys rest
+
 /-- the values the round-trip theorem covers (and that `dumpJ F` prints completely): no floating point, integers strictly inside the
-    64-bit range, strings of arbitrary bytes, arrays of such values nested less than `F` deep.  (Objects: not yet.) -/
+    64-bit range, strings of arbitrary bytes, arrays of such values and string-keyed objects with pairwise different keys, nested less than `F` deep -/
 def plainJ : Nat → J → Bool
   | 0, _ => false
   | _ + 1, .null => true
@@ -235,7 +240,7 @@ def plainJ : Nat → J → Bool
   | _ + 1, .dbl _ _ _ => false
   | _ + 1, .str _ => true
   | F + 1, .arr xs => xs.all (plainJ F)
-  | _ + 1, .obj _ => false
+  | F + 1, .obj kvs => kvs.all (fun p => plainJ F p.2) && distinctKeys (kvs.map (·.1))
 
 def Terminated (post : List Nat) : Prop := post = [] ∨ ∃ t r, post = t :: r ∧ isTerm t = true
 
@@ -404,7 +409,9 @@ theorem dump_head (F : Nat) (j : J) (d : Nat) (h : plainJ F j = true) :
     | dbl _ _ _ => simp [plainJ] at h
     | str t => exact ⟨34, jsonEscape t ++ [34], by simp [dumpJ], by decide, by decide⟩
     | arr xs => exact ⟨91, List.intercalate [44, 32] (xs.map (fun x => dumpJ F x (d + 1))) ++ [93], by simp [dumpJ], by decide, by decide⟩
-    | obj _ => simp [plainJ] at h
+    | obj kvs =>
+      refine ⟨123, 10 :: (List.intercalate [44, 10] (kvs.map (fun p => pad d ++ [34] ++ jsonEscape p.1 ++ [34, 32, 58, 32] ++ dumpJ F p.2 (d + 1))) ++ [10] ++ pad (d - 1) ++ [125]), ?_, by decide, by decide⟩
+      simp [dumpJ]
 
 /-- the text of the elements of an array after the opening bracket -/
 def elemsText (F d : Nat) (xs : List J) : List Nat := List.intercalate [44, 32] (xs.map (fun x => dumpJ F x d))
@@ -469,6 +476,200 @@ theorem array_loop (F d dp : Nat) (ih : P F) (hdp : dp + F ≤ maxDepth) :
       simp [hoff]
       omega
 
+/-! ### objects -/
+
+/-- one `"key" : value` pair, without the indentation before it -/
+def pairBody (F d : Nat) (p : List Nat × J) : List Nat := [34] ++ jsonEscape p.1 ++ [34] ++ [32, 58, 32] ++ dumpJ F p.2 (d + 1)
+
+/-- the text of an object from its first key to the closing brace -/
+def objTail (F d : Nat) : List (List Nat × J) → List Nat
+  | [] => []
+  | [p] => pairBody F d p ++ ([10] ++ pad (d - 1)) ++ [125]
+  | p :: q :: rest => pairBody F d p ++ [44] ++ ([10] ++ pad d) ++ objTail F d (q :: rest)
+
+theorem allSpace_pad (d : Nat) : allSpace (pad d) := by
+  intro c hc
+  simp [pad] at hc
+  rw [hc.2]; decide
+
+theorem allSpace_nl_pad (d : Nat) : allSpace ([10] ++ pad d) := by
+  intro c hc
+  simp at hc
+  rcases hc with rfl | hc
+  · decide
+  · exact allSpace_pad d c hc
+
+theorem dump_obj (F d : Nat) (p : List Nat × J) (kvs : List (List Nat × J)) :
+    dumpJ (F + 1) (.obj (p :: kvs)) d = [123] ++ ([10] ++ pad d) ++ objTail F d (p :: kvs) := by
+  have key : ∀ (kvs : List (List Nat × J)) (p : List Nat × J),
+      List.intercalate [44, 10] ((p :: kvs).map (fun p => pad d ++ [34] ++ jsonEscape p.1 ++ [34, 32, 58, 32] ++ dumpJ F p.2 (d + 1)))
+        ++ [10] ++ pad (d - 1) ++ [125] = pad d ++ objTail F d (p :: kvs) := by
+    intro kvs
+    induction kvs with
+    | nil => intro p; simp [objTail, pairBody]
+    | cons q rest ih =>
+      intro p
+      have := ih q
+      simp only [List.map_cons] at this ⊢
+      rw [ic2, List.append_assoc, List.append_assoc, List.append_assoc]
+      rw [show List.intercalate [44, 10] ((pad d ++ [34] ++ jsonEscape q.1 ++ [34, 32, 58, 32] ++ dumpJ F q.2 (d + 1)) ::
+            List.map (fun p => pad d ++ [34] ++ jsonEscape p.1 ++ [34, 32, 58, 32] ++ dumpJ F p.2 (d + 1)) rest) ++ ([10] ++ (pad (d - 1) ++ [125]))
+          = pad d ++ objTail F d (q :: rest) from by simpa [List.append_assoc] using this]
+      simp [objTail, pairBody]
+  simp only [dumpJ]
+  have := key kvs p
+  simp only [List.append_assoc] at this ⊢
+  rw [this]
+  simp
+
+theorem objSet_fresh (acc : List (List Nat × J)) (k : List Nat) (v : J) (h : ∀ q ∈ acc, q.1 ≠ k) : objSet acc k v = acc ++ [(k, v)] := by
+  unfold objSet
+  have : acc.any (fun p => p.1 == k) = false := by
+    rw [List.any_eq_false]
+    intro q hq
+    simpa using h q hq
+  simp [this]
+
+theorem object_loop (F0 d dp : Nat) (ih : P (F0 + 1)) (hdp : dp + (F0 + 1) ≤ maxDepth) :
+    ∀ (kvs acc : List (List Nat × J)) (ws pre post : List Nat) (f : Nat), kvs ≠ [] → (∀ p ∈ kvs, plainJ (F0 + 1) p.2 = true) →
+      distinctKeys (kvs.map (·.1)) = true → (∀ q ∈ acc, ∀ r ∈ kvs, q.1 ≠ r.1) → allSpace ws →
+      2 * (ws.length + (objTail (F0 + 1) d kvs).length) + 1 ≤ f →
+      parseJ (pre ++ ws ++ objTail (F0 + 1) d kvs ++ post) f dp (.objectLoop pre.length acc)
+        = .ok (.obj (acc ++ kvs), pre.length + ws.length + (objTail (F0 + 1) d kvs).length) := by
+  intro kvs
+  induction kvs with
+  | nil => intro acc ws pre post f h; exact absurd rfl h
+  | cons p rest ihl =>
+    intro acc ws pre post f _ hpl hdist hacc hws hf
+    obtain ⟨f, rfl⟩ : ∃ g, f = g + 1 := ⟨f - 1, by omega⟩
+    obtain ⟨k, v⟩ := p
+    have hv : plainJ (F0 + 1) v = true := hpl (k, v) (by simp)
+    obtain ⟨c1, restV, hV, hc1, _⟩ := dump_head (F0 + 1) v (d + 1) hv
+    -- names for the pieces of the text
+    generalize hK : ([34] ++ jsonEscape k ++ [34] : List Nat) = K
+    generalize hVt : dumpJ (F0 + 1) v (d + 1) = V at hV
+    have hKd : dumpJ (F0 + 1) (.str k) d = K := by simp [dumpJ, ← hK]
+    have hKpl : plainJ (F0 + 1) (.str k) = true := rfl
+    have hfresh : objSet acc k v = acc ++ [(k, v)] := objSet_fresh acc k v (fun q hq => hacc q hq (k, v) (by simp))
+    -- the shape shared by both cases: s = pre ++ ws ++ K ++ [32,58,32] ++ V ++ TAIL ++ post
+    have step : ∀ (TAIL : List Nat) (t : Nat) (tl : List Nat), TAIL = t :: tl → isTerm t = true →
+        2 * (ws.length + (K ++ [32, 58, 32] ++ V ++ TAIL).length) + 1 ≤ f + 1 →
+        ∀ (kont : Nat → JR (J × Nat)),
+        (∀ off4, off4 = pre.length + ws.length + K.length + 3 + V.length →
+          (do let off ← consumeWs (pre ++ ws ++ (K ++ [32, 58, 32] ++ V ++ TAIL) ++ post) ((pre ++ ws ++ (K ++ [32, 58, 32] ++ V ++ TAIL) ++ post).length + 2) off4
+              let c ← at? (pre ++ ws ++ (K ++ [32, 58, 32] ++ V ++ TAIL) ++ post) off
+              if c == 44 then parseJ (pre ++ ws ++ (K ++ [32, 58, 32] ++ V ++ TAIL) ++ post) f dp (.objectLoop (off + 1) (acc ++ [(k, v)]))
+              else if c == 125 then pure (.obj (acc ++ [(k, v)]), off + 1)
+              else .error .runtime) = kont off4) →
+        parseJ (pre ++ ws ++ (K ++ [32, 58, 32] ++ V ++ TAIL) ++ post) (f + 1) dp (.objectLoop pre.length acc)
+          = kont (pre.length + ws.length + K.length + 3 + V.length) := by
+      intro TAIL t tl hT ht hfuel kont hkont
+      -- key
+      have hs1 : pre ++ ws ++ (K ++ [32, 58, 32] ++ V ++ TAIL) ++ post = pre ++ ws ++ dumpJ (F0 + 1) (.str k) d ++ 32 :: (58 :: 32 :: (V ++ TAIL ++ post)) := by
+        rw [hKd]; simp
+      obtain ⟨off1, hp1, hoff1⟩ := ih (.str k) d ws pre (32 :: (58 :: 32 :: (V ++ TAIL ++ post))) dp f hKpl hdp hws
+        (Or.inr ⟨32, _, rfl, by decide⟩) (by rw [hKd]; simp at hfuel ⊢; omega)
+      have hoff1 := hoff1 (by simp)
+      rw [hKd] at hoff1
+      rw [← hs1] at hp1
+      -- ':' after one space
+      have hs2 : pre ++ ws ++ (K ++ [32, 58, 32] ++ V ++ TAIL) ++ post = (pre ++ ws ++ K) ++ [32] ++ 58 :: (32 :: (V ++ TAIL ++ post)) := by simp
+      have hcw2 := consumeWs_spaces [32] (pre ++ ws ++ K) 58 (32 :: (V ++ TAIL ++ post)) ((pre ++ ws ++ (K ++ [32, 58, 32] ++ V ++ TAIL) ++ post).length + 2)
+        (by intro c hc; simp at hc; subst hc; decide) (by decide) (by simp)
+      rw [← hs2] at hcw2
+      have hl2 : (pre ++ ws ++ K).length = off1 := by simp [hoff1]; omega
+      rw [hl2] at hcw2
+      have h58 : (pre ++ ws ++ (K ++ [32, 58, 32] ++ V ++ TAIL) ++ post)[off1 + [32].length]? = some 58 := by
+        rw [hs2, ← hl2]
+        exact get_post0 (pre ++ ws ++ K) [32] 58 _
+      -- the value after one more space
+      have hs3 : pre ++ ws ++ (K ++ [32, 58, 32] ++ V ++ TAIL) ++ post = (pre ++ ws ++ K ++ [32, 58]) ++ [32] ++ c1 :: (restV ++ TAIL ++ post) := by
+        rw [hV]; simp
+      have hcw3 := consumeWs_spaces [32] (pre ++ ws ++ K ++ [32, 58]) c1 (restV ++ TAIL ++ post) ((pre ++ ws ++ (K ++ [32, 58, 32] ++ V ++ TAIL) ++ post).length + 2)
+        (by intro c hc; simp at hc; subst hc; decide) hc1 (by simp)
+      rw [← hs3] at hcw3
+      have hl3 : (pre ++ ws ++ K ++ [32, 58]).length = off1 + [32].length + 1 := by simp [hoff1]; omega
+      rw [hl3] at hcw3
+      have hs4 : pre ++ ws ++ (K ++ [32, 58, 32] ++ V ++ TAIL) ++ post = (pre ++ ws ++ K ++ [32, 58, 32]) ++ [] ++ dumpJ (F0 + 1) v (d + 1) ++ (TAIL ++ post) := by
+        rw [hVt]; simp
+      obtain ⟨off4, hp4, hoff4⟩ := ih v (d + 1) [] (pre ++ ws ++ K ++ [32, 58, 32]) (TAIL ++ post) dp f hv hdp (by intro c hc; simp at hc)
+        (Or.inr ⟨t, tl ++ post, by simp [hT], ht⟩) (by rw [hVt]; simp at hfuel ⊢; omega)
+      have hoff4 := hoff4 (by simp [hT])
+      rw [hVt] at hoff4
+      rw [← hs4] at hp4
+      have hl4 : (pre ++ ws ++ K ++ [32, 58, 32]).length = off1 + [32].length + 1 + [32].length := by simp [hoff1]; omega
+      rw [hl4] at hp4
+      have hlt : pre.length < (pre ++ ws ++ (K ++ [32, 58, 32] ++ V ++ TAIL) ++ post).length := by simp [← hK]; omega
+      have hk := hkont off4 (by rw [hoff4]; simp [hoff1]; omega)
+      have hoffeq : off4 = pre.length + ws.length + K.length + 3 + V.length := by rw [hoff4]; simp [hoff1]; omega
+      unfold parseJ
+      simp only [hlt, if_true, hp1, hcw2, at?, h58, hcw3, hp4, J.toStr, hfresh, bind, Except.bind, pure, Except.pure,
+        show ((58 : Nat) != 58) = false from rfl, Bool.false_eq_true, if_false]
+      rw [← hoffeq]
+      simp only [bind, Except.bind, pure, Except.pure, at?] at hk
+      exact hk
+    cases rest with
+    | nil =>
+      have hT : objTail (F0 + 1) d [(k, v)] = K ++ [32, 58, 32] ++ V ++ (10 :: (pad (d - 1) ++ [125])) := by
+        simp [objTail, pairBody, ← hK, hVt]
+      rw [hT] at hf ⊢
+      have := step (10 :: (pad (d - 1) ++ [125])) 10 _ rfl (by decide) hf
+        (fun _ => .ok (.obj (acc ++ [(k, v)]), pre.length + ws.length + (K ++ [32, 58, 32] ++ V ++ (10 :: (pad (d - 1) ++ [125]))).length))
+        (by
+          intro off4 hoff4
+          have hs5 : pre ++ ws ++ (K ++ [32, 58, 32] ++ V ++ (10 :: (pad (d - 1) ++ [125]))) ++ post
+              = (pre ++ ws ++ K ++ [32, 58, 32] ++ V) ++ ([10] ++ pad (d - 1)) ++ 125 :: post := by simp
+          have hcw := consumeWs_spaces ([10] ++ pad (d - 1)) (pre ++ ws ++ K ++ [32, 58, 32] ++ V) 125 post
+            ((pre ++ ws ++ (K ++ [32, 58, 32] ++ V ++ (10 :: (pad (d - 1) ++ [125]))) ++ post).length + 2) (allSpace_nl_pad _) (by decide) (by simp; omega)
+          have hl5 : (pre ++ ws ++ K ++ [32, 58, 32] ++ V).length = off4 := by rw [hoff4]; simp; omega
+          have h125 : ((pre ++ ws ++ K ++ [32, 58, 32] ++ V) ++ ([10] ++ pad (d - 1)) ++ 125 :: post)[off4 + ([10] ++ pad (d - 1)).length]? = some 125 := by
+            rw [← hl5]; exact get_post0 _ _ 125 post
+          rw [← hs5, hl5] at hcw
+          rw [← hs5] at h125
+          simp only [hcw, at?, h125, bind, Except.bind, pure, Except.pure, show ((125 : Nat) == 44) = false from rfl,
+            show ((125 : Nat) == 125) = true from rfl, Bool.false_eq_true, if_false, if_true]
+          rw [hoff4]
+          simp
+          omega)
+      simpa using this
+    | cons q rest' =>
+      have hT : objTail (F0 + 1) d ((k, v) :: q :: rest') = K ++ [32, 58, 32] ++ V ++ (44 :: (([10] ++ pad d) ++ objTail (F0 + 1) d (q :: rest'))) := by
+        simp [objTail, pairBody, ← hK, hVt]
+      rw [hT] at hf ⊢
+      have := step (44 :: (([10] ++ pad d) ++ objTail (F0 + 1) d (q :: rest'))) 44 _ rfl (by decide) hf
+        (fun _ => .ok (.obj (acc ++ (k, v) :: q :: rest'), pre.length + ws.length + (K ++ [32, 58, 32] ++ V ++ (44 :: (([10] ++ pad d) ++ objTail (F0 + 1) d (q :: rest')))).length))
+        (by
+          intro off4 hoff4
+          have hs5 : pre ++ ws ++ (K ++ [32, 58, 32] ++ V ++ (44 :: (([10] ++ pad d) ++ objTail (F0 + 1) d (q :: rest')))) ++ post
+              = (pre ++ ws ++ K ++ [32, 58, 32] ++ V ++ [44]) ++ ([10] ++ pad d) ++ objTail (F0 + 1) d (q :: rest') ++ post := by simp
+          have hl5 : (pre ++ ws ++ K ++ [32, 58, 32] ++ V ++ [44]).length = off4 + 1 := by rw [hoff4]; simp; omega
+          have h44 : (pre ++ ws ++ (K ++ [32, 58, 32] ++ V ++ (44 :: (([10] ++ pad d) ++ objTail (F0 + 1) d (q :: rest')))) ++ post)[off4]? = some 44 := by
+            have := get_post0 (pre ++ ws) (K ++ [32, 58, 32] ++ V) 44 (([10] ++ pad d) ++ objTail (F0 + 1) d (q :: rest') ++ post)
+            have hl : (pre ++ ws).length + (K ++ [32, 58, 32] ++ V).length = off4 := by rw [hoff4]; simp; omega
+            rw [hl] at this
+            simpa [List.append_assoc] using this
+          have hcw := consumeWs_here _ off4 44 ((pre ++ ws ++ (K ++ [32, 58, 32] ++ V ++ (44 :: (([10] ++ pad d) ++ objTail (F0 + 1) d (q :: rest')))) ++ post).length + 1) h44 (by decide)
+          have hrest := ihl (acc ++ [(k, v)]) ([10] ++ pad d) (pre ++ ws ++ K ++ [32, 58, 32] ++ V ++ [44]) post f (by simp)
+            (fun z hz => hpl z (List.mem_cons_of_mem _ hz))
+            (by simp only [List.map_cons, distinctKeys, Bool.and_eq_true] at hdist ⊢; exact hdist.2)
+            (by
+              intro a ha r hr
+              simp at ha
+              rcases ha with ha | ha
+              · exact hacc a ha r (List.mem_cons_of_mem _ hr)
+              · subst ha
+                simp only [List.map_cons, distinctKeys, Bool.and_eq_true, List.all_eq_true] at hdist
+                have := hdist.1 r.1 (by simp only [List.mem_cons, List.mem_map] at hr ⊢; rcases hr with rfl | hr; exact Or.inl rfl; exact Or.inr ⟨r, hr, rfl⟩)
+                have hne : r.1 ≠ k := by simpa using this
+                exact fun h => hne h.symm)
+            (allSpace_nl_pad d) (by simp at hf ⊢; omega)
+          rw [← hs5, hl5] at hrest
+          simp only [hcw, at?, h44, hrest, bind, Except.bind, pure, Except.pure, show ((44 : Nat) == 44) = true from rfl, if_true]
+          rw [hoff4]
+          simp
+          omega)
+      simpa using this
+
 theorem P_zero : P 0 := by
   intro j d ws pre post dp f h
   simp [plainJ] at h
@@ -495,7 +696,78 @@ theorem P_succ (F : Nat) (ih : P F) : P (F + 1) := by
     refine ⟨pre.length + ws.length + ([34] ++ jsonEscape t ++ [34]).length, ?_, fun _ => by simp [dumpJ]⟩
     have := parse_str t pre ws post dp f hdp1 hws
     simpa [dumpJ] using this
-  | obj _ => simp [plainJ] at hpl
+  | obj kvs =>
+    have hd : ¬ (dp + 1 > maxDepth) := by omega
+    cases kvs with
+    | nil =>
+      have hD : dumpJ (F + 1) (.obj []) d = [123] ++ ([10, 10] ++ pad (d - 1)) ++ [125] := by simp [dumpJ]
+      rw [hD]
+      obtain ⟨h1, h2⟩ := prologue_facts pre ws ([123] ++ ([10, 10] ++ pad (d - 1)) ++ [125]) post 123 _ rfl hws (by decide)
+      have hs2 : pre ++ ws ++ ([123] ++ ([10, 10] ++ pad (d - 1)) ++ [125]) ++ post = (pre ++ ws ++ [123]) ++ ([10, 10] ++ pad (d - 1)) ++ 125 :: post := by simp
+      have hsp : allSpace ([10, 10] ++ pad (d - 1)) := by
+        intro c hc
+        have hc' : c = 10 ∨ c ∈ [10] ++ pad (d - 1) := by simpa using hc
+        rcases hc' with rfl | hc'
+        · decide
+        · exact allSpace_nl_pad _ c hc'
+      have hcw := consumeWs_spaces ([10, 10] ++ pad (d - 1)) (pre ++ ws ++ [123]) 125 post
+        ((pre ++ ws ++ ([123] ++ ([10, 10] ++ pad (d - 1)) ++ [125]) ++ post).length + 2) hsp (by decide) (by simp; omega)
+      have hl : (pre ++ ws ++ [123]).length = pre.length + ws.length + 1 := by simp; omega
+      have h125 : ((pre ++ ws ++ [123]) ++ ([10, 10] ++ pad (d - 1)) ++ 125 :: post)[pre.length + ws.length + 1 + ([10, 10] ++ pad (d - 1)).length]? = some 125 := by
+        rw [← hl]; exact get_post0 _ _ 125 post
+      rw [← hs2, hl] at hcw
+      rw [← hs2] at h125
+      refine ⟨pre.length + ws.length + ([123] ++ ([10, 10] ++ pad (d - 1)) ++ [125]).length, ?_, fun _ => rfl⟩
+      unfold parseJ
+      simp only [hd, if_false, h1, at?, h2, bind, Except.bind, pure, Except.pure]
+      simp only [show ((123 : Nat) == 91) = false from rfl, show ((123 : Nat) == 123) = true from rfl, Bool.false_eq_true, if_false, if_true,
+        hcw, h125, show ((125 : Nat) == 125) = true from rfl]
+      simp
+      omega
+    | cons p kvs' =>
+      have hall : ∀ z ∈ p :: kvs', plainJ F z.2 = true := by
+        intro z hz
+        have h := hpl
+        simp only [plainJ, Bool.and_eq_true, List.all_eq_true] at h
+        exact h.1 z hz
+      have hdist : distinctKeys ((p :: kvs').map (·.1)) = true := by
+        have h := hpl
+        simp only [plainJ, Bool.and_eq_true] at h
+        exact h.2
+      obtain ⟨F0, rfl⟩ : ∃ F0, F = F0 + 1 := by
+        cases F with
+        | zero => have := hall p (by simp); simp [plainJ] at this
+        | succ F0 => exact ⟨F0, rfl⟩
+      rw [dump_obj] at hf ⊢
+      obtain ⟨h1, h2⟩ := prologue_facts pre ws ([123] ++ ([10] ++ pad d) ++ objTail (F0 + 1) d (p :: kvs')) post 123 _ rfl hws (by decide)
+      -- the first key's quote
+      have hOT : ∃ restT, objTail (F0 + 1) d (p :: kvs') = 34 :: restT := by
+        cases kvs' with
+        | nil => exact ⟨_, by simp [objTail, pairBody]; rfl⟩
+        | cons q r => exact ⟨_, by simp [objTail, pairBody]; rfl⟩
+      obtain ⟨restT, hT⟩ := hOT
+      have hs2 : pre ++ ws ++ ([123] ++ ([10] ++ pad d) ++ objTail (F0 + 1) d (p :: kvs')) ++ post
+          = (pre ++ ws ++ [123]) ++ ([10] ++ pad d) ++ 34 :: (restT ++ post) := by rw [hT]; simp
+      have hcw := consumeWs_spaces ([10] ++ pad d) (pre ++ ws ++ [123]) 34 (restT ++ post)
+        ((pre ++ ws ++ ([123] ++ ([10] ++ pad d) ++ objTail (F0 + 1) d (p :: kvs')) ++ post).length + 2) (allSpace_nl_pad d) (by decide) (by simp; omega)
+      have hl : (pre ++ ws ++ [123]).length = pre.length + ws.length + 1 := by simp; omega
+      have h34 : ((pre ++ ws ++ [123]) ++ ([10] ++ pad d) ++ 34 :: (restT ++ post))[pre.length + ws.length + 1 + ([10] ++ pad d).length]? = some 34 := by
+        rw [← hl]; exact get_post0 _ _ 34 _
+      rw [← hs2, hl] at hcw
+      rw [← hs2] at h34
+      have hs3 : pre ++ ws ++ ([123] ++ ([10] ++ pad d) ++ objTail (F0 + 1) d (p :: kvs')) ++ post
+          = (pre ++ ws ++ [123] ++ ([10] ++ pad d)) ++ [] ++ objTail (F0 + 1) d (p :: kvs') ++ post := by simp
+      have hloop := object_loop F0 d (dp + 1) ih (by omega) (p :: kvs') [] [] (pre ++ ws ++ [123] ++ ([10] ++ pad d)) post f (by simp) hall hdist
+        (by intro q hq; simp at hq) (by intro c hc; simp at hc) (by simp at hf ⊢; omega)
+      have hl3 : (pre ++ ws ++ [123] ++ ([10] ++ pad d)).length = pre.length + ws.length + 1 + ([10] ++ pad d).length := by simp; omega
+      rw [hl3, ← hs3] at hloop
+      refine ⟨pre.length + ws.length + ([123] ++ ([10] ++ pad d) ++ objTail (F0 + 1) d (p :: kvs')).length, ?_, fun _ => rfl⟩
+      unfold parseJ
+      simp only [hd, if_false, h1, at?, h2, bind, Except.bind, pure, Except.pure]
+      simp only [show ((123 : Nat) == 91) = false from rfl, show ((123 : Nat) == 123) = true from rfl, Bool.false_eq_true, if_false, if_true,
+        hcw, h34, show ((34 : Nat) == 125) = false from rfl, hloop]
+      simp
+      omega
   | arr xs =>
     have hd : ¬ (dp + 1 > maxDepth) := by omega
     cases xs with
